@@ -201,6 +201,12 @@ theorem cmdWords_flat (ctx : CmdCtx) : ∀ (ws : List Word) (pos : Nat) (cwd : S
   | .mk v ps :: ws, pos, cwd, r => by
     simp only [aCmdWords, flatCmdWords, S_append, L_append]
     rw [cmdParts_flat ctx (.mk v ps) pos ps cwd r, cmdWords_flat ctx ws (pos + 1) cwd r]
+    cases assignSubscript v with
+    | none => rfl
+    | some t =>
+      simp only [L_cons, L_nil]
+      rw [text_atom_S, scanArg_some]
+      simp
 
 theorem cmdParts_flat (ctx : CmdCtx) (wd : Word) (pos : Nat) : ∀ (ps : List Part) (cwd : String) (r : Bool),
     S (aCmdParts w rec h ctx wd pos ps cwd r) = L w rec h (flatCmdParts w.syn ctx wd pos ps cwd r)
